@@ -280,6 +280,54 @@ func (env *c19Env) apply(o c19Op) string {
 			}(jobs[g])
 		}
 		wg.Wait()
+		// FIRST USE: key objects fresh from every constructor (decoded, aggregated, removed-from, derived
+		// from a private key) are touched for the first time by several goroutines at once; any lazily
+		// filled field inside the object is then written concurrently
+		pkb, popb := env.pks[0].Encode(), env.pops[0]
+		skb := env.sks[0].Encode()
+		msg := []byte("first use")
+		sigAlone, _ := env.sks[0].Sign(msg, env.stressBLS)
+		for trial := 0; trial < 40; trial++ {
+			fresh, err := crypto.DecodePublicKey(crypto.BLSBLS12381, pkb)
+			if err != nil {
+				return "stress-decode-failed"
+			}
+			agg, _ := crypto.AggregateBLSPublicKeys([]crypto.PublicKey{env.pks[0], env.pks[len(env.pks)-1]})
+			one, err := crypto.RemoveBLSPublicKeys(agg, []crypto.PublicKey{env.pks[len(env.pks)-1]})
+			if err != nil {
+				return "stress-remove-failed"
+			}
+			fsk, _ := crypto.DecodePrivateKey(crypto.BLSBLS12381, skb)
+			start := make(chan struct{})
+			for g := 0; g < G; g++ {
+				wg.Add(1)
+				go func(g int) {
+					defer wg.Done()
+					<-start
+					var ok bool
+					var err error
+					var enc []byte
+					switch g % 4 {
+					case 0:
+						ok, err = crypto.BLSVerifyPOP(fresh, popb)
+					case 1:
+						enc = fresh.Encode()
+						ok = bytes.Equal(enc, pkb)
+					case 2:
+						ok, err = crypto.BLSVerifyPOP(one, popb) // same point as pks[0], another object
+					case 3:
+						ok, err = fsk.PublicKey().Verify(sigAlone, msg, env.stressBLS)
+					}
+					if !ok || err != nil {
+						mu.Lock()
+						bad++
+						mu.Unlock()
+					}
+				}(g)
+			}
+			close(start)
+			wg.Wait()
+		}
 		if bad > 0 {
 			return fmt.Sprintf("stress-mismatch:%d", bad)
 		}
